@@ -79,6 +79,15 @@ CHECKS["C08"] = E("C08", "Every sentence of a bounded command grammar (all comma
 CHECKS["C09"] = E("C09", "Every path of <=3 (thorough: <=4) components over {.., ., '', a, inbox, decoy, secret} with prefixes {'', '/', '//'} in atom/quoted/literal encoding is put into "
    "every mailbox-name position of 27 commands (incl. LIST/LSUB reference and patterns with wildcards) on a jail whose neighbour folder holds token-tagged mail; everything outside the "
    "mail root must stay byte-identical, no response may carry the neighbour's content, counts or names, names with no inside reading must be refused, no DB row may name an outside path.")
+CHECKS["C14"] = E("C14", "Every program k, NOT k, OR k k', (k k') over ~90 atomic search keys (every flag key, KEYWORD/UNKEYWORD, LARGER/SMALLER around three sizes, the six date keys around "
+   "three days, header/body/text needles present/absent/mixed-case, UID and sequence sets) - thorough: three 3-level shapes over a sub-alphabet - is run as SEARCH and UID SEARCH on "
+   "three 5-message corpora; results must equal an independent evaluator over facts the same session was shown, and UID SEARCH must be SEARCH mapped through the UID table.")
+CHECKS["C16"] = E("C16", "Every message built from <=2 (thorough: <=3) of 35 feature deviations (header encodings, folded/empty/2 kB/missing fields, address forms, nested multiparts, message/rfc822, "
+   "parameter encodings, empty/LF/8-bit/dotted/long bodies) is stored by APPEND and dropped raw by the MH agent, plus the 27 fixture messages; RFC822.SIZE = |BODY[]|, HEADER+TEXT = BODY[], "
+   "RFC822* = BODY[...] forms, 15 partial ranges per message, repeated fetch identical, CRLF line ends, APPEND round trip of header fields and body, COPY byte-identical.")
+CHECKS["C07"] = E("C07", "The independent RFC 3501 response tokenizer runs over every byte sent while every message shape (as C16) is fetched with ENVELOPE, BODYSTRUCTURE, BODY, sections, header-field lists, "
+   "INTERNALDATE and FLAGS; decoded ENVELOPE strings must give back the header values; mailbox names/keywords with quotes, backslashes, 8-bit, wildcards, brackets go through LIST/LSUB/STATUS/SELECT; "
+   "error paths echo hostile input (CR LF, quotes, 300 octets). The same tokenizer also runs inside every other check.")
 NOT_YET = {}
 
 def main():
